@@ -247,16 +247,18 @@ class VttContext:
       if p.get_end() is None or p.get_end().to_seconds() > p.get_begin().to_seconds()
     ]
 
-    if self._paragraphs and self._paragraphs[-1].get_end() is None:
-      if self._paragraphs[-1].is_only_whitespace_or_empty():
-        # if the last paragraph contains only whitespace, remove it
+    # the last ISD can yield several unbounded paragraphs, e.g. one per region
+
+    for paragraph in [p for p in self._paragraphs if p.get_end() is None]:
+      if paragraph.is_only_whitespace_or_empty():
+        # if the paragraph contains only whitespace, remove it
         LOGGER.debug("Removing empty unbounded last paragraph.")
-        self._paragraphs.pop()
+        self._paragraphs.remove(paragraph)
 
       else:
         # set default end time code
         LOGGER.warning("Set a default end value to paragraph (begin + 10s).")
-        self._paragraphs[-1].set_end(self._paragraphs[-1].get_begin().to_seconds() + 10.0)
+        paragraph.set_end(paragraph.get_begin().to_seconds() + 10.0)
 
   def style_block(self):
     """Generated CSS INLINE STYLE Block"""
